@@ -625,6 +625,13 @@ func checkC18(w *World, c *Check, tier string) {
 				continue
 			}
 			if a.helper != nil && w.InPkg(a.helper) && a.helper.Signature.Params().Len() == 2 {
+				// the merged value is the old one, the new one, or a fresh copy — never something written into the storage
+				// of one of the two (append(old[:0], new...) overwrites whatever else shares old's backing array: a
+				// sibling list sliced from the same array, or the update itself when it was derived from `to`)
+				if how := returnsIntoParamStorage(a.helper); how != "" {
+					c.bad("C18.merge", key, w.InstrPos(a.instr), fmt.Sprintf("to.%s is merged through %s, which %s: properties that share that backing array (and the update, if it was derived from the value) are overwritten", fname, a.helper.Name(), how))
+					continue
+				}
 				if msg := replaceIfShape(w, pr, a.helper); msg != "" {
 					listed := false
 					for _, l := range append(append([]string{"First", "Last", "Items", "OrderedItems", "PartOf", "Next", "Prev"}, c18Object...), c18Actor...) {
@@ -1072,4 +1079,70 @@ func mapValues(m map[string]string) []string {
 		out = append(out, v)
 	}
 	return out
+}
+
+// returnsIntoParamStorage: some return value of h is built by appending into (a re-slice of) one of its slice
+// parameters. Returns a description.
+func returnsIntoParamStorage(h *ssa.Function) string {
+	var fromParam func(v ssa.Value, d int) *ssa.Parameter
+	fromParam = func(v ssa.Value, d int) *ssa.Parameter {
+		if d > 6 {
+			return nil
+		}
+		switch x := v.(type) {
+		case *ssa.Parameter:
+			if _, isSlice := types.Unalias(x.Type()).Underlying().(*types.Slice); isSlice {
+				return x
+			}
+		case *ssa.Slice:
+			return fromParam(x.X, d+1)
+		case *ssa.Phi:
+			for _, e := range x.Edges {
+				if p := fromParam(e, d+1); p != nil {
+					return p
+				}
+			}
+		case *ssa.ChangeType:
+			return fromParam(x.X, d+1)
+		case *ssa.Convert:
+			return fromParam(x.X, d+1)
+		}
+		return nil
+	}
+	var check func(v ssa.Value, d int) string
+	check = func(v ssa.Value, d int) string {
+		if d > 6 {
+			return ""
+		}
+		switch x := v.(type) {
+		case *ssa.Call:
+			if bi, ok := x.Common().Value.(*ssa.Builtin); ok && bi.Name() == "append" && len(x.Common().Args) == 2 {
+				base := x.Common().Args[0]
+				if _, direct := base.(*ssa.Parameter); !direct {
+					if p := fromParam(base, 0); p != nil {
+						return fmt.Sprintf("appends into a re-slice of its parameter %s", p.Name())
+					}
+				}
+				return check(base, d+1)
+			}
+		case *ssa.Phi:
+			for _, e := range x.Edges {
+				if s := check(e, d+1); s != "" {
+					return s
+				}
+			}
+		case *ssa.ChangeType:
+			return check(x.X, d+1)
+		}
+		return ""
+	}
+	for _, rb := range returnBlocks(h) {
+		ret := rb.Instrs[len(rb.Instrs)-1].(*ssa.Return)
+		for _, r := range ret.Results {
+			if s := check(r, 0); s != "" {
+				return s
+			}
+		}
+	}
+	return ""
 }
